@@ -35,11 +35,25 @@ structure Case where
   x : Term
   y : Term
 
+mutual
+  /-- `'$share'(K, T)` in a payload tells the harness to reach T through one shared Go object; the
+      abstract term is T -/
+  def stripShare : Term → Term
+    | .app f as =>
+      match f, stripShareArgs as with
+      | "$share", .cons _ (.cons t .nil) => t
+      | f, as' => .app f as'
+    | t => t
+  def stripShareArgs : Args → Args
+    | .nil => .nil
+    | .cons t ts => .cons (stripShare t) (stripShareArgs ts)
+end
+
 def parseCase (payload : String) : Option Case :=
   match fields payload with
   | [mode, _, xs, _, ys] =>
     match Term.ofWire xs, Term.ofWire ys with
-    | some x, some y => some ⟨mode, x, y⟩
+    | some x, some y => some ⟨mode, stripShare x, stripShare y⟩
     | _, _ => none
   | _ => none
 
